@@ -1,15 +1,20 @@
-(* C17 - the exact line of every token (ScannerLineExact.v; possible since /repo 914ba97). *)
+(* C17 - the exact line of every token (ScannerLineExact.v; unconditional since /repo 914ba97 + e81033c). *)
 From Coq Require Import List String NArith Bool Arith Lia.
 From Coq Require Import Strings.Byte.
-From YV Require Import Utf8 Scanner Parser ParseRun Lines ScannerLineExact.
+From YV Require Import Utf8 Scanner ScannerProofs Parser ParseRun Lines ScannerLineExact.
 From YV Require ParserInv.
 Import ListNotations.
 Local Open Scope N_scope.
 
-(* every token: its line + the swallowing error tokens up to it = 1 + newline bytes before its end *)
+(* the line counter is a function of the offset: every line break the scanner consumes is counted *)
+Theorem C17_scanner_line_exact : forall src st, nl_cleanb src = true ->
+  reachable src st -> s_line st = line_of_offset src (s_pos st).
+Proof. exact scanner_line_exact. Qed.
+
+(* every token: its line = 1 + newline bytes before its offset (its end; for a blind-character Error token that ends
+   with a line break, that line break) *)
 Theorem C17_token_line_exact : forall src, nl_cleanb src = true ->
-  forall l1 t e l2, scan_ends src = l1 ++ (t, e) :: l2 ->
-    tline t + swallowed src (l1 ++ [(t, e)]) = line_of_offset src e.
+  forall t e, In (t, e) (scan_ends src) -> tline t = line_of_offset src (token_offset src (t, e)).
 Proof. exact token_line_exact. Qed.
 
 Theorem C17_scan_ends_tokens : forall src, map fst (scan_ends src) = scan_all src.
@@ -19,49 +24,38 @@ Proof. exact scan_ends_tokens. Qed.
 Theorem C17_valid_nl_clean : forall src, valid_utf8 src = true -> nl_cleanb src = true.
 Proof. exact valid_nl_clean. Qed.
 
-(* up to and including the first Error token *)
-Theorem C17_token_line_exact_first_error : forall src, nl_cleanb src = true ->
-  forall l1 t e l2, scan_ends src = l1 ++ (t, e) :: l2 ->
-    Forall (fun te => tk (fst te) <> TError) l1 ->
-    tline t + (if swallowb src (t, e) then 1 else 0) = line_of_offset src e /\
+(* every token that is not an Error token (more generally: not a late-break Error token): the end offset *)
+Theorem C17_token_line_exact_plain : forall src, nl_cleanb src = true ->
+  forall t e, In (t, e) (scan_ends src) ->
+    (late_breakb src (t, e) = false -> tline t = line_of_offset src e) /\
     (tk t <> TError -> tline t = line_of_offset src e).
-Proof. exact token_line_exact_first_error. Qed.
+Proof. exact token_line_exact_plain. Qed.
 
-(* no "Invalid escape sequence." / "Expected '{' in string interpolation." token: all lines exact *)
-Theorem C17_token_line_exact_all : forall src, nl_cleanb src = true -> no_swallow_tokens src = true ->
-  forall t e, In (t, e) (scan_ends src) -> tline t = line_of_offset src e.
-Proof. exact token_line_exact_all. Qed.
+(* the Error clause: "Invalid escape sequence." / "Expected '{' in string interpolation." ending with a raw line break *)
+Theorem C17_late_break_error_line : forall src, nl_cleanb src = true ->
+  forall t e, In (t, e) (scan_ends src) -> late_breakb src (t, e) = true ->
+    tline t = line_of_offset src (e - 1) /\ line_of_offset src e = tline t + 1.
+Proof. exact late_break_error_line. Qed.
 
-(* the first compile error *)
-Theorem C17_compile_error_line_exact : forall src l a m,
-  nl_cleanb src = true ->
-  parse_source src = PErr l a m ->
-  exists t e, In (t, e) (scan_ends src) /\ l = tline t /\
-              l <= line_of_offset src e <= l + swallowed src (scan_ends src) /\
-              (no_swallow_tokens src = true -> l = line_of_offset src e).
-Proof. exact compile_error_line_exact. Qed.
-
-(* the synthetic Eof token ends at the end of the source: it carries the last line (minus the deficit) *)
+(* the Eof clause: the synthetic Eof token ends at the end of the source and carries the last line *)
 Theorem C17_eof_line_exact : forall src, nl_cleanb src = true ->
   forall t e, In (t, e) (scan_ends src) -> tk t = TEof ->
-    e = List.length src /\
-    tline t + swallowed src (scan_ends src) = 1 + N.of_nat (count_nl src).
+    e = List.length src /\ tline t = 1 + N.of_nat (count_nl src).
 Proof. exact eof_line_exact. Qed.
 
-(* a swallowing Error token (the first Error token of the scan) carries the line on which the swallowed break stands *)
-Theorem C17_swallowing_error_line : forall src, nl_cleanb src = true ->
-  forall l1 t e l2, scan_ends src = l1 ++ (t, e) :: l2 ->
-    Forall (fun te => tk (fst te) <> TError) l1 -> swallowb src (t, e) = true ->
-    tline t = line_of_offset src (e - 1).
-Proof. exact swallowing_error_line. Qed.
-
-(* the FIRST compile error of every source: exact, no side condition beyond UTF-8 *)
-Theorem C17_compile_error_line_exact_first : forall src l a m,
+(* the first compile error of every source *)
+Theorem C17_compile_error_line_exact : forall src l a m,
   valid_utf8 src = true ->
   parse_source src = PErr l a m ->
-  exists t e, In (t, e) (scan_ends src) /\ l = tline t /\
-    (if swallowb src (t, e) then l = line_of_offset src (e - 1) else l = line_of_offset src e).
-Proof. exact compile_error_line_exact_first_utf8. Qed.
+  exists t e, In (t, e) (scan_ends src) /\ l = tline t /\ l = line_of_offset src (token_offset src (t, e)).
+Proof. exact compile_error_line_exact_utf8. Qed.
+
+(* "Error at '<lexeme>'": the quoted lexeme is a token that ends on the reported line *)
+Theorem C17_compile_error_at_token_line : forall src l lex m,
+  nl_cleanb src = true ->
+  parse_source src = PErr l (AtToken lex) m ->
+  exists t e, In (t, e) (scan_ends src) /\ tsource t = lex /\ l = line_of_offset src e.
+Proof. exact compile_error_at_token_line. Qed.
 
 (* the parser half: the reported line is the line of a token with no Error token before it *)
 Theorem C17_parse_error_before_scan_error : forall src l a m,
@@ -69,26 +63,13 @@ Theorem C17_parse_error_before_scan_error : forall src l a m,
   exists t, (exists pre post, scan_all src = pre ++ t :: post /\ Forall (fun x => tk x <> TError) pre) /\ tline t = l.
 Proof. exact ParserInv.parse_error_before_scan_error. Qed.
 
-(* OPEN defect class literal_error_swallows_newline (notes/C17-findings.json): later tokens one line short *)
-Theorem C17_line_exact_refuted_escape :
-  exists src l1 t e l2, valid_utf8 src = true /\ scan_ends src = l1 ++ (t, e) :: l2 /\
-    tk t = TEqual /\ tline t = 2 /\ line_of_offset src e = 3.
-Proof. exact line_exact_refuted_escape. Qed.
-
-Theorem C17_line_exact_refuted_dollar :
-  exists src l1 t e l2, valid_utf8 src = true /\ scan_ends src = l1 ++ (t, e) :: l2 /\
-    tk t = TEqual /\ tline t = 2 /\ line_of_offset src e = 3.
-Proof. exact line_exact_refuted_dollar. Qed.
-
+Print Assumptions C17_scanner_line_exact.
 Print Assumptions C17_token_line_exact.
 Print Assumptions C17_scan_ends_tokens.
 Print Assumptions C17_valid_nl_clean.
-Print Assumptions C17_token_line_exact_first_error.
-Print Assumptions C17_token_line_exact_all.
-Print Assumptions C17_compile_error_line_exact.
-Print Assumptions C17_line_exact_refuted_escape.
-Print Assumptions C17_line_exact_refuted_dollar.
+Print Assumptions C17_token_line_exact_plain.
+Print Assumptions C17_late_break_error_line.
 Print Assumptions C17_eof_line_exact.
-Print Assumptions C17_swallowing_error_line.
-Print Assumptions C17_compile_error_line_exact_first.
+Print Assumptions C17_compile_error_line_exact.
+Print Assumptions C17_compile_error_at_token_line.
 Print Assumptions C17_parse_error_before_scan_error.
